@@ -95,6 +95,52 @@ def install_classifier(ctx):
     ctx.classify = classify
 
 
+def judge_fast(ctx, specdirs, module, cfg, events, scenario_of=None, timeout=900, max_rejects=6, env=None):
+    """Like vlib.Ctx.judge, but after a rejection only the traces AFTER the rejected one are judged
+    again (every trace before the first unconsumable line was consumed completely: a reset event
+    is always enabled), so a change that breaks many traces does not cost rejections x all traces.
+    (vlib.judge re-reads everything; reported to the coordinator.)"""
+    import os as _os
+    traces = vlib.split_traces(events)
+    total = len(traces)
+    rejected = []
+    pos = 0
+    while pos < len(traces):
+        flat = [ev for t in traces[pos:] for ev in t]
+        ctx.nrun += 1
+        tp = _os.path.join(ctx.scratch, "judge%d.ndjson" % ctx.nrun)
+        vlib.write_ndjson(tp, flat)
+        e = dict(env or {})
+        e["VERIF_TRACE"] = tp
+        r = ctx.tlc(specdirs, module, cfg, env=e, workers=1, timeout=timeout, count=False,
+                    must_pass=False, dfs=True)
+        if r.ok:
+            break
+        line, why = vlib.judge_rejection(r, len(flat))
+        if line is None:
+            raise vlib.InfraError("judge %s/%s failed without a rejection point (rc=%d):\n%s"
+                                  % (module, cfg, r.rc, r.tail(60)))
+        n = 0
+        idx = None
+        for i in range(pos, len(traces)):
+            if n < line <= n + len(traces[i]):
+                idx, off = i, line - n
+                break
+            n += len(traces[i])
+        if idx is None:
+            raise vlib.InfraError("judge: rejected line %d outside trace file (%d lines)" % (line, len(flat)))
+        rejected.append({"trace": traces[idx], "offset": off, "why": why})
+        pos = idx + 1
+        if len(rejected) >= max_rejects:
+            ctx.log("judge: %d rejections, not examining the remaining %d traces" % (len(rejected), len(traces) - pos))
+            total -= len(traces) - pos
+            break
+    ctx.traces_validated += total - len(rejected)
+    for rj in rejected:
+        ctx.classify(rj, scenario_of)
+    return total - len(rejected)
+
+
 def kf_scenarios(sid0, seed):
     """Dedicated scenarios that re-confirm the known findings of C08 on every run (the general
     generators keep their triggers out so that no long trace is lost to them)."""
@@ -102,13 +148,13 @@ def kf_scenarios(sid0, seed):
                                          "tr": False, "ap": False}
     out = []
     # KF-C08-1: Rename(x, x) of a regular file deletes it
-    for i, (bs, fl) in enumerate([(1, "none"), (2, "marshal"), (4, "flushall")]):
+    for i, (bs, fl) in enumerate([(1, "none"), (2, "marshal")][:1 + seed % 2]):
         out.append({"id": sid0 + i, "mode": "steps", "bs": bs, "flush": fl, "rseed": seed, "init": "empty",
                     "gen": "kf1", "ops": [o(1, ["a"]), {"op": "write", "h": 1, "d": "xy"},
                                           {"op": "rename", "p": ["a"], "q": ["a"]}, {"op": "stat", "p": ["a"]}]})
     # KF-C08-2: a zero-length file token inside a block leaves a zero-length segment; after the file
     # grows, reads at offset 0 report EOF
-    for i, (bs, fl) in enumerate([(4, "none"), (64, "flushlong")]):
+    for i, (bs, fl) in enumerate([(4, "none"), (64, "flushlong")][seed % 2:seed % 2 + 1]):
         out.append({"id": sid0 + 10 + i, "mode": "steps", "bs": bs, "flush": fl, "rseed": seed,
                     "init": "manifest_kf2", "gen": "kf2",
                     "ops": [o(1, ["b"], "w", False), {"op": "trunc", "h": 1, "n": 5}, {"op": "stat", "p": ["b"]}]})
@@ -128,8 +174,8 @@ def build_scenarios(ctx, paths, rnd):
             scns.append({"id": sid, "mode": "steps", "ops": ops, "bs": rnd.choice([1, 1, 2, 2, 3, 4]),
                          "flush": rnd.choice(FLUSHES), "rseed": ctx.seed, "init": "empty", "gen": "tlc"})
     # long seeded random call sequences beyond the model's bounds
-    nrand = 240 if ctx.thorough else 36
-    nops = 400 if ctx.thorough else 250
+    nrand = 240 if ctx.thorough else 30
+    nops = 400 if ctx.thorough else 200
     bss = [1, 2, 3, 4, 5, 7, 8, 13, 16, 31, 32, 64]
     for i in range(nrand):
         sid += 1
@@ -149,18 +195,18 @@ def build_scenarios(ctx, paths, rnd):
 def run(ctx):
     rnd = random.Random(ctx.seed)
     # GEN (1): implementation-shaped segment model refines the byte-array contract
-    if os.path.exists(os.path.join(vlib.VERIF, SD, "CollFSFlush.tla")): ctx.tlc(SD, "CollFSFlush", "MC_CollFSFlush_C08_big.cfg" if ctx.thorough else "MC_CollFSFlush_C08.cfg",
+    if os.environ.get("VERIF_DEV_SKIP_MC") != "1": ctx.tlc(SD, "CollFSFlush", "MC_CollFSFlush_C08_big.cfg" if ctx.thorough else "MC_CollFSFlush_C08.cfg",
             timeout=1500, label="exhaustive: segment-list model of Write/truncate/seek/Read/prune/flush refines the byte-array contract")
     # GEN (2): the contract explored by TLC: one call sequence per distinct reachable state
     paths, r = ctx.gen(SD, "CollFSGen", "Gen_CollFS_C08_big.cfg" if ctx.thorough else "Gen_CollFS_C08.cfg",
-                       timeout=1500, workers=int(os.environ.get("VERIF_TLC_WORKERS", "4")),
+                       timeout=1500,
                        label="contract state space (TreeOK, SizeOK) + call sequence emission")
     if len(paths) != r.distinct:
         ctx.drift.append("Gen emitted %d sequences for %d distinct states" % (len(paths), r.distinct))
     ctx.extra["contract_states_reached_by_tlc"] = len(paths)
     paths = [p for p in paths if p["ops"]]
     paths.sort(key=lambda p: (len(p["ops"]), repr(p["ops"])))
-    limit = 40000 if ctx.thorough else 1300
+    limit = 40000 if ctx.thorough else 1000
     if len(paths) > limit:
         head = [p for p in paths if len(p["ops"]) <= 2]
         rest = [p for p in paths if len(p["ops"]) > 2]
@@ -182,8 +228,7 @@ def run(ctx):
     kfids = {s["id"] for s in scns if s["gen"].startswith("kf")}
     main = [e for t in traces if t[0].get("scn") not in kfids for e in t]
     kfev = [e for t in traces if t[0].get("scn") in kfids for e in t]
-    ctx.judge(SD, "CollFSTrace", "Judge_CollFS_C08.cfg", main, scenario_of=by_id, timeout=2400)
-    ctx.judge(SD, "CollFSTrace", "Judge_CollFS_C08.cfg", kfev, scenario_of=by_id, timeout=600)
+    judge_fast(ctx, SD, "CollFSTrace", "Judge_CollFS_C08.cfg", main + kfev, scenario_of=by_id, timeout=2400)
     nontrivial = set()
     calls = 0
     for t in traces:
